@@ -36,7 +36,8 @@ MODULES = ['TamocV.Props.C12', 'TamocV.Model.Oil']
 RULE = ('get_oil on dead oils of 2-12 of the 12 database compounds that are liquid at 15 C / 1 atm, masses Dirichlet or log-uniform '
         '(1e-4..1); the absolute scale of the GIVEN masses cycles inside every GOR band through: total 1e-12..3e-10, total 1e-9..1e-6, '
         'trace components (fractions 1e-12..1e-6, normalised or total 1e-3..1e6), normalised / total 1e-2..1e6; given as array or list; '
-        'on a fixed third of the cases get_oil(lambda * masses) for lambda = 1e-9, 1e-6, 1e3; rate 1, 1e6 and log-uniform 1-1e6 bbl/d; stratified '
+        'on a fixed third of the cases get_oil(lambda * masses) for lambda = 1e-9, 1e-6, 1e3; on another third 2-3 further calls in the '
+        'same process with the same component list and other masses (the last also with other ca / fp_type / q / gor); rate 1, 1e6 and log-uniform 1-1e6 bbl/d; stratified '
         'GOR: 0 (oil-rate and gas-rate convention), 10-1000, 1000-5000, 5000-20000 (random oils and oils with >= 50 % '
         'toluene/ethylbenzene/n-decane that stay liquid under the gas load), two fixed cases; oil-rate and gas-rate convention; '
         'ca = [], all four atmospheric gases or a subset; a second call at another rate for proportionality; a case is non-trivial '
@@ -405,6 +406,48 @@ def run_case(ctx, c, worst):
                               dict(rep, scale_factor=lam, traceback=traceback.format_exc()[-3000:]))
                 break
         c['metamorphic_done'] = True
+    # ---------------- call history: the SAME component list again with DIFFERENT masses ----------------
+    # (each call must honour the masses requested in THAT call: nothing may be carried over from an earlier call with
+    #  the same composition; the oracle below uses the requested masses of the repeated call, nothing read back)
+    if c.get('history'):
+        for kk, (factors, alt) in enumerate(c['history']):
+            ms2 = np.array(c['masses']) * np.array(factors)
+            c4 = dict(c, masses=ms2.tolist())
+            c4.update(alt)
+            rep4 = {k: c4[k] for k in ('composition', 'masses', 'q', 'gor', 'fp_type', 'ca')}
+            rep4['earlier_call_same_composition'] = {k: c[k] for k in ('masses', 'q', 'gor', 'fp_type', 'ca')}
+            try:
+                with quiet(), timebox(CALL_TIMEOUT[ctx.tier if ctx.tier in CALL_TIMEOUT else 'quick']):
+                    oil4, mflux4 = call_get_oil(c4, c4['q'])
+            except Timeout:
+                ctx.count('repeated get_oil call timed out (counted)')
+                c['second_timeout'] = True
+                continue
+            except Exception as e:
+                key, site = raise_key(e)
+                ctx.violation(key, 'repeated get_oil call (same composition, other masses) raised %s: %s' % (type(e).__name__, str(e)[:200]),
+                              dict(rep4, traceback=traceback.format_exc()[-3000:]))
+                break
+            mflux4 = np.asarray(mflux4, dtype=float)
+            rep4['mass_flux'] = mflux4.tolist()
+            off4 = 5 if c4['gor'] > 0. else 0
+            exp4 = (GAS if c4['gor'] > 0. else []) + list(c4['composition']) + list(c4['ca'])
+            if list(oil4.composition) != exp4 or len(mflux4) != len(exp4):
+                ctx.violation('get_oil-composition-order', 'repeated call: returned mixture is not [natural gas] + dead oil + atmospheric gases', rep4)
+                break
+            if not np.all(np.isfinite(mflux4)):
+                ctx.count('repeated call: non-finite fluxes (known signatures are judged on first calls only; skipped)')
+                continue
+            dead4 = mflux4[off4:off4 + n]
+            k4 = float(np.sum(dead4) / np.sum(ms2))
+            e4 = float(np.max(np.abs(dead4 - k4 * ms2) / (k4 * ms2)))
+            worst['prop'] = max(worst['prop'], e4)
+            c['history_judged'] = c.get('history_judged', 0) + 1
+            if not e4 <= TOL['identity']:
+                ctx.violation('dead-oil-proportions-after-earlier-call',
+                              'a repeated get_oil call with the same component list but different masses does not return the dead-oil '
+                              'components in the proportions requested in THAT call', dict(rep4, dead_block=dead4.tolist(), factor=k4, relerr=e4))
+                break
     c.setdefault('outcome', 'judged')     # every predicate of the property was evaluated on this case
     # ---------------- named hypotheses sampled: homogeneity of the flash / scale invariance -------------
     std = [(mm, r) for mm, T, P, r in rec.flash if T == T_STD and P == P_STD]
@@ -550,6 +593,24 @@ def run(ctx, lean_ok):
             kmode += 1
     for k, c in enumerate(todo):
         c['metamorphic'] = (k % 3 == 0)        # a fixed third of the cases: get_oil(lambda * masses) == get_oil(masses)
+        if k % 3 == 1:
+            # another third: 2-3 further calls in this process with the SAME component list and other mass vectors
+            # (per-component factors 0.2..5), the last one also with other ca / fp_type / q / gor
+            nrep = r.randint(2, 3)
+            hist = []
+            for j in range(nrep):
+                factors = [10 ** r.uniform(-0.7, 0.7) for _ in c['masses']]
+                alt = {}
+                if j == nrep - 1:
+                    # another GOR inside the quantifier's 10-20000 scf/bbl (below ~10 all gas dissolves at 15 C / 1 atm,
+                    # outside the property's domain)
+                    g2 = min(20000., max(10., c['gor'] * r.choice([0.5, 0.8]))) if c['gor'] > 0. else 0.
+                    if g2 == c['gor'] and g2 > 0.:
+                        g2 = c['gor'] * 2.
+                    alt = {'q': c['q'] * r.choice([0.1, 3., 10.]), 'gor': g2, 'ca': ([] if c['ca'] else list(AIR)),
+                           'fp_type': (c['fp_type'] if g2 == 0. else 1 - c['fp_type'])}
+                hist.append((factors, alt))
+            c['history'] = hist
     ntot = len(todo)
     allowed_timeouts = max(1, int(MAX_TIMEOUT_SHARE * ntot))
     outcomes = {}
@@ -593,6 +654,7 @@ def run(ctx, lean_ok):
     for name, have, need in (('a given mass entry <= 1e-9', sum(1 for c in jd if min(c['masses']) <= 1e-9), ctx.n(5, 100)),
                              ('a total given mass <= 1e-6', sum(1 for c in jd if sum(c['masses']) <= 1e-6), ctx.n(5, 100)),
                              ('a total given mass >= 1e3', sum(1 for c in jd if sum(c['masses']) >= 1e3), ctx.n(1, 20)),
+                             ('a repeated call (same component list, other masses) judged', sum(1 for c in jd if c.get('history_judged', 0) >= 2), ctx.n(4, 80)),
                              ('the scale-invariance (metamorphic) predicate evaluated', sum(1 for c in jd if c.get('metamorphic_done')), ctx.n(5, 100))):
         ctx.oblige('coverage floor: >= %d JUDGED cases with %s' % (need, name), have >= need, 'only %d' % have)
     ctx.oblige('coverage: all %d planned cases attempted and time-outs <= %d (%.0f %%)' % (ntot, allowed_timeouts, 100 * MAX_TIMEOUT_SHARE),
